@@ -199,6 +199,8 @@ def do_set(s, via, path, val):
         import xobjects as xo
 
         hand.assign(s.t, s.h, path, xo.String(val))  # the text given as a String OBJECT (its own size word must not travel)
+    elif via == "v0":
+        hand.assign(s.t, s.v0, path, val)
     elif via in ("h", "v"):
         rt, rh = handle_for(s, via, path)
         if rt[0] == "U" and via == "v":
@@ -246,6 +248,10 @@ def events(s, opts, depth_now):
                 if via == "n" and path[-2] in ("*", "#") and len(path) < 3 and False:
                     continue
                 evs.append(("set", via, path, val))
+            if depth_now >= 1 and s.v0 is not None and any(q in ("*", "#") for q in path) and opts.get("old_view", True):
+                # through the view that exists since construction and has looked at every reference before the
+                # earlier events re-bound them through other handles
+                evs.append(("set", "v0", path, val))
         if lt[0] == "Str" and opts.get("str_objects", True) and depth_now <= 1:
             for val in leaf_candidates(lt, lv, room, n + i)[1:2] or leaf_candidates(lt, lv, room, n + i)[:1]:
                 evs.append(("set", "h-strobj", path, val))
